@@ -450,6 +450,11 @@ func (rs *RelationService) createTable(r *Relation, tableName string) error {
 			return ErrIntOutOfRange
 		}
 	}
+	// ...and a table or column name that makes a catalog row too large for a
+	// page cell
+	if err := checkCatalogRows(r, tableName); err != nil {
+		return err
+	}
 
 	pg, err := rs.createPage()
 	if err != nil {
@@ -459,6 +464,36 @@ func (rs *RelationService) createTable(r *Relation, tableName string) error {
 		return err
 	}
 	return rs.insertSchemaTable(r, tableName)
+}
+
+// checkCatalogRows encodes the sys_pages row and the sys_schema rows that
+// describe the table and reports the first one that does not fit a page cell.
+func checkCatalogRows(r *Relation, tableName string) error {
+	rows := []Tuple{{
+		Relation: &pageTableSchema,
+		Vals:     map[string]interface{}{"table_name": tableName, "file_offset": int64(0)},
+	}}
+	for _, fd := range r.Fields {
+		rows = append(rows, Tuple{
+			Relation: &schemaTableSchema,
+			Vals: map[string]interface{}{
+				"table_name":   tableName,
+				"field_name":   fd.Name,
+				"field_type":   int64(fd.DataType),
+				"field_length": fd.Len,
+			},
+		})
+	}
+	for _, row := range rows {
+		buf, err := row.Encode()
+		if err != nil {
+			return err
+		}
+		if err := checkRowSizeLimit(buf.Bytes()); err != nil {
+			return err
+		}
+	}
+	return nil
 }
 
 func (rs *RelationService) createPage() (*btreeNode, error) {
